@@ -134,8 +134,8 @@ K("fb.copy_from_f32_monotone_u8", ["C15"], "jxl-oxide", FB, FBM, "copy_from_f32_
 K("fb.copy_from_f32_monotone_u16", ["C15"], "jxl-oxide", FB, FBM, "copy_from_f32_monotone_u16", "complete",
   ["<u16 as Sealed>::copy_from_f32"], "a <= b (non-NaN) => u16(a) <= u16(b), all pairs of f32", tier="thorough", timeout=1200)
 _FB_G = ("1x1 AlignedGrid holding a symbolic sample, read at (0,0) or at any position outside: ")
-# (the float-buffer fast paths of copy_from_grid -- harnesses copy_from_grid_u8_f32 / _u16_f32 in the module -- exceed the 14 GB CBMC
-#  budget and are NOT registered: that the inline `(v * 255.0 + 0.5).clamp(..) as u8` there equals copy_from_f32 is unverified)
+# (the float-buffer fast paths of copy_from_grid -- harnesses copy_from_grid_u8_f32 / _u16_f32 -- are registered in 41_fb2.py as
+#  fb2.copy_from_grid_u8_f32 / _u16_f32: they exceeded 14 GB until Vec::reserve was modelled, see there)
 for _t, _g, _c in [("u8", "i32", "8-bit samples in a 32-bit buffer: exact copy clamped to 0..=255, 0 outside"),
                    ("u8", "i16", "8-bit samples in a 16-bit buffer: exact copy clamped to 0..=255, 0 outside"),
                    ("u16", "i32", "16-bit samples in a 32-bit buffer: exact copy clamped to 0..=65535, 0 outside"),
@@ -147,9 +147,9 @@ K("fb.from_grids_int", ["C15", "C01"], "jxl-oxide", FB, FBM, "from_grids_int",
   "bounded:1x1 copy region, one 32-bit and one 16-bit integer channel, all 8 orientations, all sample values",
   ["FrameBuffer::from_grids", "BitDepth::parse_integer_sample"],
   "integer channels are scaled with their own bit depth (== parse_integer_sample), interleaved in channel order", tier="thorough", timeout=900)
-# NOT registered: harnesses from_grids_o1..8 of the module (coordinate map of the whole-buffer copy on a 3x2 grid, one per orientation).
-# Measured: CBMC needs > 12-14 GB (killed by the RSS watchdog) even with a single float channel and fixed offsets; one run outside the
-# runner closed in 164-270 s. The coordinate map of FrameBuffer::from_grids is therefore UNVERIFIED beyond the 1x1 case above.
+# The coordinate map of FrameBuffer::from_grids on a 3x2 copy region with several channels and per-channel grid regions, one obligation per
+# orientation, is in 41_fb2.py (fb2.from_grids_regions_o1..8, fb2.from_grids_mixed_o1..8); the single-channel harnesses from_grids_o1..8
+# that needed > 12-14 GB here were superseded by them and removed from the module.
 
 # ---- jxl-image/lib.rs ---------------------------------------------------------------------------------------------
 CANARIES["jxl-image"] = dict(anchor=IM, module=IMM, harness="canary", kind="complete", fns=[], timeout=60)
